@@ -9,15 +9,18 @@ META = dict(
     claim="For every configuration in the bound and, inside it, every real-valued input (pair dissimilarities >= 0 or unit coordinates, "
           "delta_empty > 0, alpha, beta >= 0), every accept/reject pattern of the pruning filter and every 0/1 answer a correct MIP solver may "
           "give: get_best_alignment returns without exception, each unitary alignment has exactly one slot per annotator, at least one real "
-          "unit and only the continuum's own units, and every (annotator, unit) occurs in exactly one of them. Nothing is claimed outside the bound.",
+          "unit and only the continuum's own units, and every (annotator, unit) occurs in exactly one of them; and, in IEEE binary32/binary64 "
+          "arithmetic with numba's width rules (candidate kernel only, 3-4 annotators with one unit each, every binary32 delta_empty in (0, 1024]): "
+          "the tuple that leaves one unit alone is always a candidate, so the integer program always has a feasible point. Nothing is claimed outside the bound.",
     trusted="z3; the MIP stub's contract (a 0/1 point satisfying the captured constraints whenever one exists); symbolic build validated against "
-            "the real build on concrete inputs every run; real arithmetic instead of float32",
+            "the real build on concrete inputs every run; real arithmetic instead of float32 everywhere except the IEEE-mode kernel configuration "
+            "(z3 FloatingPoint theory, bit-blasted; width rules validated against the real numba kernel in C07's translator validation)",
     bounds=dict(
         quick="abstract pair values on sizes (1,1),(2,1),(0,2),(2,2),(3,1),(1,1,1),(2,1,0) x back-ends {CBC, GLPK via ImportError, GLPK via SolverError}; "
               "positional dissimilarity with symbolic coordinates on (1,1),(2,1) x labels {none, mixed, all}; combined dissimilarity (alpha, beta, "
-              "delta_empty symbolic, symbolic coordinates) on (1,1) x labels {none, mixed, xy}",
-        thorough="+ abstract (3,2),(3,3),(2,1,1),(2,2,1),(1,1,1,1),(0,1,2),(1,1,1,1,1) semi; positional (2,2),(1,1,1); combined (2,1)"),
-    outside="correctness of CBC/GLPK themselves; > 4 fully symbolic annotators; > 3 units per annotator; float32 rounding; "
+              "delta_empty symbolic, symbolic coordinates) on (1,1) x labels {none, mixed, xy}; IEEE-mode candidate kernel on (1,1,1) with pairs far apart",
+        thorough="+ abstract (3,2),(3,3),(2,1,1),(2,2,1),(1,1,1,1),(0,1,2),(1,1,1,1,1) semi; positional (2,2),(1,1,1); combined (2,1); IEEE-mode kernel on (1,1,1,1)"),
+    outside="correctness of CBC/GLPK themselves; > 4 fully symbolic annotators; > 3 units per annotator; float32 rounding outside the candidate kernel's pruning test (pair values, the MIP objective); "
             "unlabelled units with matrix-based categorical dissimilarities (no value is defined for them)",
     stubs=["cvxpy/CBC/GLPK = contract stub (feasible + optimal 0/1 point of the captured problem)", "import cylp = succeeds / ImportError (configuration)",
            "numba.njit = identity", "np float arrays = object arrays of z3 reals"],
